@@ -424,6 +424,37 @@ def judgePbf (keepTok : String) (doc : Doc) (rhs : List String) : String :=
     | _ => s!"DIFF {cls} unparsable-implementation-answer"
   | _ => s!"SPEC {cls} ExtractPBF-fails {pbf}"
 
+/-- truncated input: an error, or exactly the closure of the objects that lie completely before the cut —
+never a nil error with another set.  Model: a PBF file cut at a block boundary is a well-formed shorter file
+(answer = closure of the prefix); any other cut, and every cut of an XML file (the root element stays open),
+is a scanner error that `extract` returns. -/
+def judgeTrunc (fmt keepTok : String) (doc : Doc) (rhs : List String) : String :=
+  match parseKeep keepTok, fieldOf "trunc=" rhs, (fieldOf "n=" rhs).bind (·.toNat?), fieldOf "clean=" rhs with
+  | some (k, ks, _), some ans, some n, some clean =>
+    let pre := doc.take n
+    let cls := s!"truncated-{if fmt == "x" then "xml" else "pbf"}-{if clean == "1" then "at-boundary" else "inside"}"
+    if !uniqueKeysB pre then s!"OK {cls}-skipped" else
+    if ans == "skip" then s!"OK {cls}-skipped" else
+    match specIds pre ks, modelSeq pre k with
+    | some want, some (mIds, mChk, _) =>
+      if ans == "err" then
+        if clean == "1" then s!"DIFF {cls} error-on-a-well-formed-shorter-file" else s!"OK {cls}"
+      else match splitS '/' ans with
+        | ["ok", ids, chk] =>
+          if ids != want then s!"SPEC {cls} nil-error-with-a-partial-result-on-truncated-input got={ids} want={want} (closure of the {n} objects before the cut)"
+          else if noDanglingB pre && chk != "ok" then s!"SPEC {cls} nil-error-and-Check-fails-on-truncated-input"
+          else if clean == "2" then s!"OK {cls}-accepted-by-the-scanner"
+          else if clean != "1" then s!"DIFF {cls} model-expects-a-scanner-error-impl-returned-the-closure-of-the-prefix"
+          else if (ids, chk) != (mIds, mChk) then s!"DIFF {cls} model={mIds}/{mChk} impl={ans}"
+          else s!"OK {cls}"
+        | _ => s!"SPEC {cls} truncated-input-{ans}"
+    | _, _ => s!"DIFF {cls} spec-or-model-failed"
+  | _, _, _, _ =>
+    match rhs with
+    | "timeout" :: _ => "SPEC truncated extraction-does-not-return"
+    | "crash" :: w => s!"SPEC truncated extraction-crashes-the-process {" ".intercalate w}"
+    | _ => "BAD parse"
+
 def tokens (line : String) : List String := (line.splitOn " ").filter (· ≠ "")
 
 /-- `<bounds>`, `<note>`, `<user>` elements of the file: the scanner yields them, the worker's empty
@@ -440,6 +471,10 @@ def judgeLine (line : String) : String :=
     let keepToks := rest.takeWhile (· ≠ "|")
     match parseDoc (rest.drop (keepToks.length + 1)) with
     | some doc => judgeHist keepToks doc rhs
+    | none => "BAD parse"
+  | "t" :: fmt :: _cut :: keepTok :: "|" :: objToks =>
+    match parseDoc objToks with
+    | some doc => judgeTrunc fmt keepTok doc rhs
     | none => "BAD parse"
   | "p" :: _variant :: keepTok :: "|" :: objToks =>
     match parseDoc objToks with
